@@ -150,6 +150,8 @@ def run(run: common.Run):
     cli_faults(run, tmp, pair, bsig, model, kernel, mbm, njobs)
     compare_stats_faults(run, tmp, pair, mbm)
     persistent_read_failure(run, tmp, pair, mbm)
+    if run.only is None:
+        cli_compare_stats_faults(run, tmp, pair, mbm)
 
 
 def cli_faults(run, tmp, pair, bsig, model, kernel, mbm, njobs):
@@ -191,6 +193,73 @@ def cli_faults(run, tmp, pair, bsig, model, kernel, mbm, njobs):
                     if not fusion.bytes_equal(a, bsig[0]):
                         run.fail(case, 'CLI exited 0 but the corrected image differs from the API result (blocks missing?)',
                                  signature=dict(kind='cli-incomplete'))
+
+
+def cli_compare_stats_faults(run, tmp, pair, mbm):
+    """`homonim compare` / `homonim stats`: a block that fails gives a non-zero exit status; a fault-free run exits 0"""
+    from click.testing import CliRunner
+    from homonim import cli, RasterCompare, ParamStats
+    with warnings.catch_warnings():
+        warnings.simplefilter('ignore')
+        base = fusion.run_fuse(pair.src_path, pair.ref_path, tmp / 'c09_clist.tif', model='gain-offset', kernel_shape=(3, 3), threads=1,
+                               param=True, out_profile=dict(creation_options=dict(tiled=True, blockxsize=16, blockysize=16)))
+        orig_read, orig_enter = RasterCompare.read, ParamStats.__enter__
+        for k in (None, 0, 2):
+            for T in (1, 2):
+                cnt = {'n': 0}
+
+                def read(self, bp):
+                    i = cnt['n']
+                    cnt['n'] += 1
+                    if k is not None and i == k:
+                        raise sc.InjectedFault('injected read failure')
+                    return orig_read(self, bp)
+                RasterCompare.read = read
+                try:
+                    res = CliRunner().invoke(cli.cli, ['compare', str(pair.src_path), str(pair.ref_path), '-t', str(T), '-mbm', repr(mbm),
+                                                       '--output', str(tmp / 'c09_cmp.json')])
+                finally:
+                    RasterCompare.read = orig_read
+                run.evaluations += 1
+                run.hist['cli compare / stats runs'] += 1
+                case = dict(i=4 * 10**6 + (k if k is not None else -1) * 10 + T, op='cli compare', fail_block=k, threads=T)
+                if k is not None and cnt['n'] > k and res.exit_code == 0:
+                    run.fail(case, f'`homonim compare` exited 0 although the read of block {k} failed', signature=dict(kind='cli-exit-zero', op='compare'))
+                elif k is None and res.exit_code != 0:
+                    run.fail(case, f'fault-free `homonim compare` exited {res.exit_code}', signature=dict(kind='cli', op='compare'))
+                for meth in ('dataset_mask', 'read'):
+                    cnt2 = {'n': 0}
+
+                    def enter(self):
+                        r = orig_enter(self)
+                        real = self._param_im
+
+                        class P:
+                            def __getattr__(self_, name):
+                                v = getattr(real, name)
+                                if name == meth:
+                                    def call(*a, **kw):
+                                        i = cnt2['n']
+                                        cnt2['n'] += 1
+                                        if k is not None and i == k:
+                                            raise sc.InjectedFault(f'injected {meth} failure')
+                                        return v(*a, **kw)
+                                    return call
+                                return v
+                        self._param_im = P()
+                        return r
+                    ParamStats.__enter__ = enter
+                    try:
+                        res = CliRunner().invoke(cli.cli, ['stats', str(base.param_path), '--output', str(tmp / 'c09_st.json')])
+                    finally:
+                        ParamStats.__enter__ = orig_enter
+                    run.evaluations += 1
+                    run.hist['cli compare / stats runs'] += 1
+                    case = dict(i=5 * 10**6 + (k if k is not None else -1) * 10 + T, op='cli stats', method=meth, fail_call=k)
+                    if k is not None and cnt2['n'] > k and res.exit_code == 0:
+                        run.fail(case, f'`homonim stats` exited 0 although call {k} of {meth} failed', signature=dict(kind='cli-exit-zero', op='stats'))
+                    elif k is None and res.exit_code != 0:
+                        run.fail(case, f'fault-free `homonim stats` exited {res.exit_code}', signature=dict(kind='cli', op='stats'))
 
 
 def persistent_read_failure(run, tmp, pair, mbm):
